@@ -6,6 +6,7 @@ from pyvc import native
 
 def run(rep, tier, seed):
     k_parsex.run_structural(rep, 'C05')
+    k_parsex.escape_structural(rep, 'C05')
     verify_all(rep, k_parsex.specs('C05'))
     rep.trusted.append('structural obligations are facts about the program text of parsex.py (decided by analysis of its '
                        'AST, for all inputs because they do not depend on inputs); CPython is the parser being wrapped')
